@@ -19,7 +19,7 @@ import io
 import os
 import resource
 
-WRITER_MODES = ("raw", "bufw", "bufrw")
+WRITER_MODES = ("raw", "bufw", "bufrw", "append", "bufappend")
 READER_MODES = ("raw", "bufr")
 
 
@@ -30,15 +30,34 @@ class SeamBypassed(Exception):
 class SimFile:
     """Logging proxy around a real file object on the simulated disk."""
 
-    def __init__(self, disk, fobj):
+    def __init__(self, disk, fobj, append=False, fail_at=None):
         self._disk = disk
         self._f = fobj
         self.ops = []  # (kind, offset, bytes)
         self.calls = []  # names only, for the event log
         self._pending_tell = None
+        self.append = append
+        self.fail_at = fail_at  # index of the seam call at which the device fails (EIO), or None
+        self.failed = False
+
+    def _fault(self, data=None):
+        """Live fault injection: the fail_at-th call on this file object hits an I/O error.  A write first
+        gets half of its bytes out (torn write), then fails."""
+        if self.fail_at is not None and len(self.calls) == self.fail_at and not self.failed:
+            self.failed = True
+            if data is not None and len(data) > 1:
+                self._f.write(data[: len(data) // 2])
+                try:
+                    self._f.flush()
+                except Exception:
+                    pass
+            import errno
+
+            raise OSError(errno.EIO, "simulated I/O error at seam call %d" % self.fail_at)
 
     # -- the operations save() performs ------------------------------------------------
     def write(self, data):
+        self._fault(bytes(data))
         pos = self._f.tell()
         n = self._f.write(data)
         self.calls.append("write")
@@ -47,20 +66,24 @@ class SimFile:
         return n
 
     def flush(self):
+        self._fault()
         self.calls.append("flush")
         return self._f.flush()
 
     def fileno(self):
+        self._fault()
         self.calls.append("fileno")
         return self._f.fileno()
 
     def tell(self):
+        self._fault()
         pos = self._f.tell()
         self.calls.append("tell")
         self._pending_tell = pos
         return pos
 
     def seek(self, offset, whence=0):
+        self._fault()
         self.calls.append("seek")
         p0 = self._pending_tell
         r = self._f.seek(offset, whence)
@@ -106,7 +129,11 @@ class SimDisk:
         if content:
             os.pwrite(self.fd, content, 0)
 
-    def writer(self, mode="raw", bufsize=None):
+    def writer(self, mode="raw", bufsize=None, fail_at=None):
+        if mode in ("append", "bufappend"):
+            # a handle opened for appending (O_APPEND): seek() does not move where writes land
+            f = open("/proc/self/fd/%d" % self.fd, "ab", buffering=0 if mode == "append" else max(2, bufsize or 64))
+            return SimFile(self, f, append=True, fail_at=fail_at)
         raw = io.FileIO(os.dup(self.fd), "r+", closefd=True)
         if mode == "raw":
             f = raw
@@ -116,7 +143,7 @@ class SimDisk:
             f = io.BufferedRandom(raw, buffer_size=bufsize or 4096)
         else:
             raise ValueError(mode)
-        return SimFile(self, f)
+        return SimFile(self, f, fail_at=fail_at)
 
     def restart(self, mode="raw"):
         """Fresh open file description at offset 0, as a process started after the crash sees it."""
